@@ -209,10 +209,12 @@ Next == \/ \E u \in AllNodes, v \in Hidden \cup OutSet, w \in Weights, td \in Td
 Spec == Init /\ [][Next]_vars
 
 (* ------------------------------------ the laws ------------------------------------ *)
-\* (RecursiveSteps always refuses - law Refusals - and leaves the settled outputs where they are)
+\* (RecursiveSteps always refuses - law Refusals - and a request for zero steps is an error of the standard solver; both
+\*  leave the settled outputs where they are)
+Refused(o) == o.op = "rec" \/ (o.op \in {"fwd", "act"} /\ o.k = 0)
 Settled(l, os) == \A i \in DOMAIN l :
-                 /\ l[i].sset => l[i].so = l[i].want /\ (os[i].op # "rec" => l[i].se = "")
-                 /\ l[i].fset => l[i].fo = l[i].want /\ (os[i].op # "rec" => l[i].fe = "")
+                 /\ l[i].sset => l[i].so = l[i].want /\ (~Refused(os[i]) => l[i].se = "")
+                 /\ l[i].fset => l[i].fo = l[i].want /\ (~Refused(os[i]) => l[i].fe = "")
 Settles == ph \in {"hist", "suffix", "done"} => Settled(log, ops)
 SolversAgree == ph \in {"hist", "suffix", "done"} =>
                    \A i \in DOMAIN log : (log[i].sset /\ log[i].fset) => log[i].so = log[i].fo
@@ -229,6 +231,10 @@ DepthTwoWays == ph \in {"hist", "suffix", "done"} => meta.depth = meta.depthdef 
 Refusals == ph \in {"hist", "suffix", "done"} =>
                 \A i \in DOMAIN log : ops[i].op = "rec" =>
                     /\ log[i].se = "modular" /\ log[i].fe = "modular" /\ ~log[i].fok
+                    /\ (i > 1 => /\ log[i].sst = log[i - 1].sst /\ log[i].scon = log[i - 1].scon
+                                 /\ log[i].fsig = log[i - 1].fsig /\ log[i].fpre = log[i - 1].fpre)
+             /\ \A i \in DOMAIN log : (ops[i].op \in {"fwd", "act"} /\ ops[i].k = 0) =>
+                    /\ log[i].se = "zero" /\ log[i].fe = "" /\ ~log[i].fok
                     /\ (i > 1 => /\ log[i].sst = log[i - 1].sst /\ log[i].scon = log[i - 1].scon
                                  /\ log[i].fsig = log[i - 1].fsig /\ log[i].fpre = log[i - 1].fpre)
 (* ---- what one might expect but the library does NOT do (each is EXPECTED TO FAIL, MC_ModularAct_should_*.cfg; ---- *)
